@@ -135,7 +135,7 @@ CLAIMS["C18"] = dict(
 CLAIMS["C12"] = dict(
    text="The real extract-files command run on an in-memory drive whose single catalogue entry has arbitrary name and directory bytes (all 2^64 values), "
         "for destination directories with and without a trailing slash and of length 1 and 3: every host file it opens (recorded by the ofstream model) has a path that "
-        "is the destination, one separator, and a final component without any separator; at most the body file and its .inf file are created.",
+        "is the destination, one separator, and a final component without any separator.",
    note="extract-unused (names derived from sector numbers only) and the read-only opening of images are argued in DESIGN.md, not solver-decided; "
         "std::string replaced by a fixed-capacity value model for the encoding (replay and validation use the real std::string)",
    ref="5 C12 / 10", tech=TECH_CXX)
